@@ -26,8 +26,13 @@ CFG = {
                   "outputs of the large cases (up to ~20000 records) are compared through two 63-bit polynomial fingerprints",
     "technique": "Coq proof (induction over record lists, byte-level round trip) + vm_compute correspondence check",
     "design_ref": "DESIGN.md §4 C07",
-    "n_quick": 200, "n_thorough": 3000,
-    "rule": "eight streams (5-7 new in round 4). (5) reader grid: synthetic files of 0, 2, 81, 83, 164 records (below and above "
+    "n_quick": 120, "n_thorough": 3000,
+    "rule": "SIZE LADDER (wave 6): large meshes and large files walk 2^12, 2^13, 2^14, 2^15 triangles (quick: one mesh and one "
+            "file per rung, at the rung or one above; thorough: -1/0/+1 on each, 2^16 and 2^17, multiples of NumCPU +-1 near 5000, "
+            "20000, 40000), mesh shapes alternating unwelded identity / welded strip / unwelded reversed / welded with as many "
+            "vertices as triangles, per-vertex distinct positions and normals, one reader kind per file rung, one rung through "
+            "stl.Save/stl.Load, compared by fingerprint; this replaces the ad-hoc large counts of streams (3)/(4) below. "
+            "Eight streams (5-7 new in round 4). (5) reader grid: synthetic files of 0, 2, 81, 83, 164 records (below and above "
             "bufio's 4096 bytes; thorough: 13 sizes up to 1000) and 4097+ records through every reader kind: iotest.HalfReader, "
             "OneByteReader, DataErrReader, Half+DataErr, random pieces incl. empty reads (with and without the final error "
             "delivered together with data), bufio of 16 bytes over pieces, io.Pipe, *os.File / stl.Load, iotest.TimeoutReader and "
